@@ -62,7 +62,7 @@ func checkC17(c *Ctx) Meta {
 	c.Rule("C17-INTR", "every blocking channel operation in a goroutine that a waitStop waits for has an arm on a cancellation channel (so that stop returns promptly)", 7)
 	c.Rule("C17-BLOCK", "no blocking operation while the superior's task lock or collector lock is held unless whoever unblocks it never needs that lock", 1)
 	c.Rule("C17-PAIR", "every AddTask is paired with RemoveTask of the same task id on all exits of the caller", 3)
-	c.Rule("C17-ROUTE", "a report is sent on the channel looked up by its own task id; CollectorMsg carries the reporting collector's id; Send addresses only the target collector; Broadcast iterates the subscribed collectors; a late subscriber gets the current task replayed to itself only", 6)
+	c.Rule("C17-ROUTE", "a report is sent on the channel looked up by its own task id; CollectorMsg carries the reporting collector's id; Send addresses only the target collector; Broadcast iterates the subscribed collectors; a late subscriber gets the current task replayed to itself only, read after its registration; reports are handed over in the reporting goroutine", 9)
 
 	fns := fractalFuncs(c)
 	if len(fns) < 100 {
@@ -740,6 +740,30 @@ func checkRouting(c *Ctx) {
 				}
 			}
 		})
+		// the current task is read after the collector is registered (otherwise a task switch between the
+		// read and the registration is lost for this collector)
+		{
+			var reg ssa.Instruction
+			allInstrs(f, func(in ssa.Instruction) {
+				if cl, ok := in.(*ssa.Call); ok && isCall(cl, "(*"+pkgFractal+".baseSuperior).Subscribe") {
+					reg = cl
+				}
+			})
+			stale := false
+			for _, a := range fieldAccesses(f) {
+				if a.Kind == "load" && a.Field == "latestTask" && reg != nil && !reach(f, reg, nil, nil)(a.In) {
+					stale = true
+				}
+			}
+			okey := strings.NewReplacer("(", "", "*", "", ")", "").Replace(name) + ":task-read-after-registration"
+			if reg == nil {
+				c.Bad(rule, okey, c.Pos(f.Pos()), "reason=anchor-missing: baseSuperior.Subscribe call")
+			} else if stale {
+				c.Bad(rule, okey, c.Pos(f.Pos()), "latestTask is read before the collector is registered: a collector that joins during a task switch is handed the task that was just removed and never receives the new one")
+			} else {
+				c.OK(rule, okey, c.Pos(reg.Pos()), "latestTask is loaded after baseSuperior.Subscribe")
+			}
+		}
 		switch {
 		case bc > 0:
 			c.Bad(rule, key, c.Pos(f.Pos()), "subscribing a collector re-broadcasts the current task to every collector already subscribed: each of them receives the task a second time and restarts its lookup")
@@ -747,6 +771,24 @@ func checkRouting(c *Ctx) {
 			c.Bad(rule, key, c.Pos(f.Pos()), "the current task is not replayed to the subscribing collector (Send(ctx, c.ID(), task))")
 		default:
 			c.OK(rule, key, c.Pos(f.Pos()), "Send(ctx, c.ID(), latestTask): only the new subscriber")
+		}
+	}
+	// reports of one connection are handed over in order: the hand-over to the task channel happens in
+	// the reporting goroutine itself (no goroutine is spawned per report)
+	if f := c.MustFn(rule, "fractal", "(*LocalSuperior).submitCollectorMsg"); f != nil {
+		key := "submitCollectorMsg:hand-over-in-the-reporting-goroutine"
+		spawns := false
+		for _, g := range withClosures(f) {
+			allInstrs(g, func(in ssa.Instruction) {
+				if _, ok := in.(*ssa.Go); ok {
+					spawns = true
+				}
+			})
+		}
+		if spawns {
+			c.Bad(rule, key, c.Pos(f.Pos()), "a report can be handed to its task channel by a goroutine spawned for it: when the waiter is behind, later reports overtake earlier ones (order per connection is lost) and the caller no longer sees the error")
+		} else {
+			c.OK(rule, key, c.Pos(f.Pos()), "no goroutine is started on the report path")
 		}
 	}
 	_ = token.ADD
